@@ -1,5 +1,5 @@
 (* C07: from reachable (invariant) states neither the fan-out nor a broker-agnostic request can hit
-   KeyError at client.py:908 (self._brokers[node_id]): every node a payload resolves to, and every node the
+   KeyError at client.py:915 (self._brokers[node_id]): every node a payload resolves to, and every node the
    fallback order names, has a known address.  The model's EKeyErrorBroker / UKeyError results are unreachable. *)
 From AV Require Import Base.Util Model.ClientMeta Model.ClientRoute Proofs.ClientMetaDict Proofs.ClientMetaFacts
   Proofs.ClientRouteWF Proofs.ClientRouteFacts Proofs.ClientRouteFallback.
